@@ -143,12 +143,19 @@ func c17Gen(c *engine.C) engine.Case {
 	src := sb.String()
 	// the source file is a symbolic link to a file kept elsewhere (under a name no filter selects)
 	linked := c.Bool("file-is-a-symlink")
+	// a second file with the same base name and the same content in another directory (scanned after the first)
+	twin := c.Bool("second-file-with-the-same-base-name-elsewhere")
 	return func() engine.Result {
 		files := []FileSpec{{Path: filepath.Join("src", name), Content: src}}
 		if linked {
 			files = []FileSpec{{Path: "store/original.data", Content: src}}
 		}
-		res := engine.Result{InputKey: name + "|" + strings.Join(filters, ",") + "|" + src + fmt.Sprint(linked), Input: map[string]interface{}{"file": name, "filters": filters, "content": src, "file_is_a_symlink": linked}}
+		paths := []string{filepath.Join("src", name)}
+		if twin {
+			files = append(files, FileSpec{Path: filepath.Join("src", "zz", "lib", name), Content: src})
+			paths = append(paths, filepath.Join("src", "zz", "lib", name))
+		}
+		res := engine.Result{InputKey: name + "|" + strings.Join(filters, ",") + "|" + src + fmt.Sprint(linked, twin), Input: map[string]interface{}{"file": name, "filters": filters, "content": src, "file_is_a_symlink": linked, "same_file_again_in": paths[1:]}}
 		root, cleanup := materialise(files)
 		defer cleanup()
 		if linked {
@@ -158,17 +165,6 @@ func c17Gen(c *engine.C) engine.Case {
 				return res
 			}
 		}
-		if !selected {
-			for _, w := range wants {
-				w.Required = false
-			}
-		}
-		for _, w := range wants {
-			w.matched = false
-			if w.Required {
-				res.Nontrivial = true
-			}
-		}
 		got := todo.NewTodoApp().AnalysisPath(root, filters)
 		var lines []string
 		for _, g := range got {
@@ -176,48 +172,71 @@ func c17Gen(c *engine.C) engine.Case {
 		}
 		sort.Strings(lines)
 		res.Outcome = strings.Join(lines, "\n")
+		known := map[string]bool{}
+		for _, p := range paths {
+			known[filepath.Join(root, p)] = true
+		}
 		for _, g := range got {
 			if !selected {
 				res.Violations = append(res.Violations, engine.V("extension", "unselected-file-scanned", "entry reported for %s which no filter in %v selects", name, filters))
-				continue
-			}
-			var hit *c17Want
-			score := -1
-			for _, w := range wants {
-				if w.matched || w.Line != g.Line {
-					continue
-				}
-				sc := 0
-				if w.Required {
-					sc = 1
-				}
-				if w.Assignee == g.Assignee && w.Message == normMsg(g.Message) {
-					sc += 2
-				}
-				if sc > score {
-					hit, score = w, sc
-				}
-			}
-			if hit == nil {
-				res.Violations = append(res.Violations, engine.V("entries", "unwarranted", "entry at line %d (%q) does not correspond to a TODO/FIXME comment; source:\n%s", g.Line, g.Message, src))
-				continue
-			}
-			hit.matched = true
-			if g.Filename != filepath.Join(root, "src", name) {
+			} else if !known[g.Filename] {
 				res.Violations = append(res.Violations, engine.V("entries", "file", "entry names file %q", rel(root, g.Filename)))
 			}
-			if hit.Required {
-				if g.Assignee != hit.Assignee {
-					res.Violations = append(res.Violations, engine.V("entries", "assignee", "comment %q: assignee %q reported, want %q", hit.Text, g.Assignee, hit.Assignee))
-				}
-				if normMsg(g.Message) != hit.Message {
-					res.Violations = append(res.Violations, engine.V("entries", "message", "comment %q: message %q reported, want %q", hit.Text, normMsg(g.Message), hit.Message))
+		}
+		if !selected {
+			return res
+		}
+		// every file is judged on its own: the entries naming it against the comments written in it
+		for _, p := range paths {
+			full := filepath.Join(root, p)
+			ws := make([]*c17Want, len(wants))
+			for i, w := range wants {
+				cp := *w
+				cp.matched = false
+				ws[i] = &cp
+				if cp.Required {
+					res.Nontrivial = true
 				}
 			}
-		}
-		for _, w := range wants {
-			if w.Required && !w.matched {
-				res.Violations = append(res.Violations, engine.V("entries", "missing", "comment %q at line %d not reported; reported: %v; source:\n%s", w.Text, w.Line, lines, src))
+			for _, g := range got {
+				if g.Filename != full {
+					continue
+				}
+				var hit *c17Want
+				score := -1
+				for _, w := range ws {
+					if w.matched || w.Line != g.Line {
+						continue
+					}
+					sc := 0
+					if w.Required {
+						sc = 1
+					}
+					if w.Assignee == g.Assignee && w.Message == normMsg(g.Message) {
+						sc += 2
+					}
+					if sc > score {
+						hit, score = w, sc
+					}
+				}
+				if hit == nil {
+					res.Violations = append(res.Violations, engine.V("entries", "unwarranted", "entry at %s line %d (%q) does not correspond to a TODO/FIXME comment; source:\n%s", p, g.Line, g.Message, src))
+					continue
+				}
+				hit.matched = true
+				if hit.Required {
+					if g.Assignee != hit.Assignee {
+						res.Violations = append(res.Violations, engine.V("entries", "assignee", "comment %q: assignee %q reported, want %q", hit.Text, g.Assignee, hit.Assignee))
+					}
+					if normMsg(g.Message) != hit.Message {
+						res.Violations = append(res.Violations, engine.V("entries", "message", "comment %q: message %q reported, want %q", hit.Text, normMsg(g.Message), hit.Message))
+					}
+				}
+			}
+			for _, w := range ws {
+				if w.Required && !w.matched {
+					res.Violations = append(res.Violations, engine.V("entries", "missing", "comment %q at line %d of %s not reported; reported: %v; source:\n%s", w.Text, w.Line, p, lines, src))
+				}
 			}
 		}
 		return res
@@ -228,7 +247,7 @@ func init() {
 	engine.Register(&engine.Spec{
 		ID:    "C17",
 		Title: "Every TODO/FIXME comment is reported once with its line; nothing else is",
-		Rule: "X1 full product: all sequences of 1..2 (quick) / 1..3 (thorough) tokens over a 40-token alphabet (code, string/char/template literals containing comment markers and TODO, line/block/hash comments with empty, one-character, marker-only, colon, assignee, lower/mixed case, late-mention, multi-line, gutter, Javadoc and unterminated shapes) x same-line/new-line joiner x final newline x 4 extension-filter cases. " +
+		Rule: "X1 full product: all sequences of 1..2 (quick) / 1..3 (thorough) tokens over a 40-token alphabet (code, string/char/template literals containing comment markers and TODO, line/block/hash comments with empty, one-character, marker-only, colon, assignee, lower/mixed case, late-mention, multi-line, gutter, Javadoc and unterminated shapes) x same-line/new-line joiner x final newline x 4 extension-filter cases x regular file / symbolic link x alone / a second time under the same base name in another directory. " +
 			"Non-trivial = at least one entry is required. Distinct = (file name, filters, content).",
 		Assumptions: []string{
 			"after a line or hash comment the next token starts a new line (a line comment swallows the rest of its line)",
